@@ -7,12 +7,19 @@ import props.wiring as wr
 
 MANIFEST = {
     "level": "proof",
-    "text": "Pacing: tickClock (one call per clock cycle, four per machine cycle) is proved to advance the clock counter by exactly one and to send exactly one left and one right sample iff sound is on, both outputs are attached and the counter is a multiple of 95 - for every counter value below 2^62, so also across emulated-second boundaries; a ranking-function lemma over that contract gives exactly one stereo sample per 95 clock cycles; nothing is sent when sound is off or an output is missing. Bounded: in the SMT floating-point theory (float32, round-to-nearest-even, Go's evaluation order) both samples produced by the real takeSample code are proved finite and in [0,1) under the representation invariant apuOK (volume <= 15, duty index < 8, sample buffer <= 15, master volume <= 7, ...), which tickClock and tickFrameSequencer are proved to preserve. Routed: the sample of a side is proved to be +0 when no enabled channel is routed to it, and to be identical (relational obligation over two states that differ in every field of one channel) whenever that channel's NR51 bit for the side is clear. apuOK and the clock invariant are proved established by gameboy.New/audio.New (power-on lemma on the real constructor) and preserved by every exported method of *Audio (register handlers and EndMachineCycle), for every argument.",
+    "text": "Pacing: tickClock (one call per clock cycle, four per machine cycle) is proved to advance the clock counter by exactly one and to send exactly one left and one right sample iff sound is on, both outputs are attached and the counter is a multiple of 95 - for every counter value below 2^62, so also across emulated-second boundaries; a ranking-function lemma over that contract gives exactly one stereo sample per 95 clock cycles; nothing is sent when sound is off or an output is missing. Bounded: in the SMT floating-point theory (float32, round-to-nearest-even, Go's evaluation order) both samples produced by the real takeSample code are proved finite and in [0,1) under the representation invariant apuOK (volume <= 15, duty index < 8, sample buffer <= 15, master volume <= 7, ...), which tickClock and tickFrameSequencer are proved to preserve. Routed: the sample of a side is proved to be +0 when no enabled channel is routed to it, and to be identical (relational obligation over two states that differ in every field of one channel) whenever that channel's NR51 bit for the side is clear. apuOK and the clock invariant are proved established by gameboy.New/audio.New (power-on lemma on the real constructor) and preserved by every exported method of *Audio (register handlers and EndMachineCycle), for every argument. The sample clock is written by tickClock alone (SSA scan) and WriteNR52 is proved to leave it unchanged.",
     "note": "Assumed: a channel send is recorded as a ghost event (the speakers goroutine is the environment; blocking is not modelled); amd64 float32 arithmetic without fused multiply-add. The wiring 'DisableAudioOutput => audio.New(nil, nil)' in gameboy.New is checked by an SSA scan. apuOK is established by audio.New (checked) and preserved by the register handlers (their masks).",
     "technique": "function contracts with a ghost sample trace, floating-point SMT obligations, relational (two-state) routing lemma, ranking-function lemma; z3",
     "design_ref": "DESIGN.md section 4 C20",
 }
 KEEP = keep_labels({"ticks", "sample", "ok", "silent", "pair", "ch1", "ch2", "ch3", "ch4", "sequencer", "len2", "len3"})
+
+
+def apu_clock_writers(ctx):
+    from props.common import field_writers
+    ws = field_writers(ctx.prog, "audio.Audio", "ticks")
+    bad = sorted(ws - {"(*audio.Audio).tickClock", "audio.New"})
+    return not bad, "writers of Audio.ticks other than tickClock / New: %s" % bad
 
 
 def tasks(ctx):
@@ -25,7 +32,10 @@ def tasks(ctx):
           Task(ac.A + "takeSample[outputs]", ac.A + "takeSample", variant="outputs", overrides=both, keep=KEEP),
           Task(ac.A + "takeSample[no-outputs]", ac.A + "takeSample", variant="no-outputs", overrides=ac.OV, keep=KEEP),
           LemmaTask("lemma:mix", ac.mix_lemmas, [ac.A + "takeSample", "(*audio.square).takeSample", "(*audio.wave).takeSample", "(*audio.noise).takeSample"]),
-          LemmaTask("lemma:pacing", ac.pacing_lemma, ["tickClock (contract-level lemma)"])]
+          LemmaTask("lemma:pacing", ac.pacing_lemma, ["tickClock (contract-level lemma)"]),
+          # the sample clock is advanced by tickClock alone: no register write rewinds it
+          Task(ac.A + "WriteNR52", ac.A + "WriteNR52", overrides=ac.OV, keep=keep_labels({"clock"}, kinds=("requires",))),
+          scan_lemma("scan:apu-clock-written-only-by-tickClock", apu_clock_writers, ["package audio (SSA scan)"])]
     # the invariant the bound rests on: established at power-on, preserved by every entry point of the APU
     ts.extend(ac.invariant_task(fn) for fn in ac.exported_audio_methods(ctx))
     ts.append(LemmaTask("lemma:power-on", lambda c, e, ce: wr.power_on(c, e, ce, wiring=False, only=("apuOK(m.audio)", "m.audio.ticks >= 1 && m.audio.frameSeqTicks < 512")),
